@@ -170,7 +170,7 @@ static int cmp_cb(const void * a, const void * b, void * priv)
     if (!dec(a, &ka, &ia) || !dec(b, &kb, &ib)) {
         logbad = 1;
     }
-    return (ka > kb) - (ka < kb);
+    return h_cmp_result(ka, kb);
 }
 
 static void swap_cb(void * a, void * b, void * t, size_t len)
